@@ -130,3 +130,36 @@ Proof.
   split; [exact (proj1 deploy_without_feature)|].
   split; [exact (proj2 deploy_without_feature)|exact deploy_with_feature].
 Qed.
+
+(* ================= round 2: the error branch of the chained case =================
+   The strict validator [chain_order_ok]: an accepted order is a permutation of the items in which every
+   requirement of every item is provided strictly before it and by NO item after it (the item itself may
+   provide the entity again: it is then the end of the chain).  It is stronger than [order_ok].  The replay
+   driver uses it in two ways: an item set that has such an order is not cyclic in any reading of C10, so a
+   "topological sort failure" for it is a property failure; and for such a set a successful order must itself be
+   accepted by the strict validator. *)
+From Herc Require Import Pipeline.Strict Pipeline.StrictProofs.
+
+Theorem C10_strict_order_checker_sound : forall items order, chain_order_ok items order = true ->
+  (forall l1 c l3, order = l1 ++ c :: l3 -> forall e, In e (ireq c) ->
+     (exists p, In p l1 /\ In e (iprov p)) /\ (forall p, In p l3 -> ~ In e (iprov p))) /\
+  Permutation order items /\
+  order_ok items order = true.
+Proof. exact strict_checker_main. Qed.
+Print Assumptions C10_strict_order_checker_sound.
+
+(* A third region in which the full statement is FALSE of the current code, inside RRenames / RSeveral:
+   [shallow_secondb] - the provider of a doubly provided entity that requires the entity itself (the end of the
+   chain) is not strictly farther from the roots of the item / entity graph than the other provider.  resolve
+   chooses the end of the chain by BreadthSort rank, chains the wrong provider last and answers
+   "topological sort failure" for a set that has a strict order. *)
+Theorem C10_chained_shallow_second_refuted : exists ch dis items good,
+  domain_okb dis items = true /\ region_of items = RRenames /\ shallow_secondb items = true /\
+  resolve ch dis items = Err SortFailure /\ chain_order_ok items good = true.
+Proof. exact chained_shallow_refuted. Qed.
+Print Assumptions C10_chained_shallow_second_refuted.
+
+(* non-vacuity: a cascade of four doubly provided entities outside the region is resolved, strictly *)
+Example C10_ex_cascade_strict : region_of w_cascade44 = RSeveral /\ shallow_secondb w_cascade44 = false /\
+  exists order, resolve ch0 dis0 w_cascade44 = Ok order /\ chain_order_ok w_cascade44 order = true.
+Proof. exact (proj2 cascade44_clean). Qed.
